@@ -34,6 +34,7 @@ func (t *fnTrans) setupParams() {
 		n := t.c.declare(p.Name(), t.sortOf(p.Type()))
 		t.vals[p] = []string{n}
 		t.assumeType(n, p.Type())
+		t.assumeTypeInv(n, p.Type())
 		isRecv := i == 0 && fn.Signature.Recv() != nil
 		switch p.Type().Underlying().(type) {
 		case *types.Pointer, *types.Map, *types.Chan, *types.Signature:
@@ -73,6 +74,7 @@ func (t *fnTrans) setupParams() {
 		}
 	}
 	t.closureFacts()
+	t.packageInvariants()
 }
 
 // atEntry: lock preconditions (held set at entry).
@@ -633,8 +635,8 @@ func (t *fnTrans) guardField(owner, fname string, ownerT types.Type, base string
 	if baseVal != nil && t.local[baseVal] {
 		return
 	}
-	if t.privateCtx() {
-		return
+	if t.privateCtx() || (t.fn.Name() == "init" && t.fn.Parent() == nil) {
+		return // a package initializer builds its objects before anything else can see them
 	}
 	acc := "read"
 	if write {
